@@ -165,7 +165,13 @@ fn f_mon_fast_fn_impl(nodes: &[Node], deep: bool, env: &Uiua) -> Option<(ValueMo
         // it is often used to fix shape mismatches between rows.
         // We handle it separately here.
         &[Node::Prim(Box, span)] if !deep => {
-            (spanned_mon_fn(span, |v, d, _| Ok(v.box_depth(d).into())), 0)
+            let f = |v: Value, d: usize, env: &Uiua| {
+                // Every boxed row takes space, even if the rows have no elements
+                let boxes = v.shape.iter().take(d).copied();
+                super::validate_size::<Boxed>(boxes, env)?;
+                Ok(v.box_depth(d).into())
+            };
+            (spanned_mon_fn(span, f), 0)
         }
         &[Node::Prim(prim, span)] => {
             let f = prim_mon_fast_fn(prim, span)?;
